@@ -165,6 +165,33 @@ Proof.
   repeat split; auto.
 Qed.
 
+
+(* The minter learns about membership only through the answer the whitelist gave to this
+   call (the view).  Against ANY notion of who the intended members are: if the answer is
+   faithful to it, only intended members mint while the whitelist is active; and whenever a
+   non-intended buyer does mint in the whitelist phase, the whitelist has answered "member"
+   for that buyer in this very call — a stale or wrong answer of the whitelist, not a
+   decision of the minter. *)
+Theorem faithful_whitelist_only_members_mint (intended : addr -> Prop) vr s e fp w v stage proof alloc choice s' ms :
+  s_whitelist s = Some w -> wv_active v = true ->
+  (membership_answer vr v proof = Some true -> intended (e_sender e)) ->
+  step vr s e fp (Some v) (OMint stage proof alloc choice) = Ok (s', ms) ->
+  intended (e_sender e).
+Proof.
+  intros Hw Ha Hf H. apply Hf.
+  destruct (active_wl_member_pays_wl_price _ _ _ _ _ _ _ _ _ _ _ _ Hw Ha H) as [Hm _]. exact Hm.
+Qed.
+
+Theorem nonmember_mint_blames_whitelist_answer (intended : addr -> Prop) vr s e fp w v stage proof alloc choice s' ms :
+  s_whitelist s = Some w -> wv_active v = true ->
+  step vr s e fp (Some v) (OMint stage proof alloc choice) = Ok (s', ms) ->
+  ~ intended (e_sender e) ->
+  membership_answer vr v proof = Some true /\ ~ intended (e_sender e).
+Proof.
+  intros Hw Ha H Hn.
+  destruct (active_wl_member_pays_wl_price _ _ _ _ _ _ _ _ _ _ _ _ Hw Ha H) as [Hm _]. split; assumption.
+Qed.
+
 (* ---------- clause 4: inactive whitelist = public rules ---------- *)
 Lemma core_public_wl_irrelevant vr s e fp wv wv2 w2 adm rcp tok choice :
   mint_price (with_wl s w2) fp wv2 adm = mint_price s fp wv adm ->
